@@ -14,9 +14,12 @@
 
   on top of the C01 model of the soft/hard state machine.  Core Lean only.
 
-  Times are integers (seconds of the virtual clock).  Not in the model: downtimes, reachability, flapping
-  (the harness keeps them off), pausing, the zone check of the cluster handlers (C13), the comment expiry
-  timer and the suppressed-notification timer (neither is pumped by the harness).
+    Comment::CommentsExpireTimerHandler                         (lib/icinga/comment.cpp:240-259)
+
+  Times are integers (seconds of the virtual clock).  A downtime enters only as the bit "a downtime is in effect"
+  (its own life cycle is C05's).  Not in the model: reachability, flapping (the harness keeps them off), pausing, the
+  zone check of the cluster handlers (C13), the suppressed-notification timer (C02; the harness never lets it run),
+  the HTTP layer in front of the API action (an HTTP request is modelled as the API action it dispatches to).
 -/
 import IcingaModel.C01.Model
 
@@ -38,12 +41,14 @@ def Ack.ind : Ack → Nat | .none => 0 | _ => 1
 structure Cmt where
   entry : Int          -- entry_time (Comment::AddComment: Utility::GetTime())
   persistent : Bool
+  expire : Int         -- expire_time, 0 = never
   deriving DecidableEq, Repr
 
-/-- The set of existing acknowledgement comments is kept as a list sorted by (entry, persistent) —
+/-- The set of existing acknowledgement comments is kept as a list sorted by (entry, persistent, expire) —
     the canonical form in which the harness prints it. -/
 def Cmt.le (a b : Cmt) : Bool :=
-  decide (a.entry < b.entry) || (a.entry == b.entry && (!a.persistent || b.persistent))
+  decide (a.entry < b.entry) ||
+  (a.entry == b.entry && ((!a.persistent && b.persistent) || (a.persistent == b.persistent && decide (a.expire ≤ b.expire))))
 
 def insertCmt (c : Cmt) : List Cmt → List Cmt
   | [] => [c]
@@ -69,6 +74,10 @@ inductive Op
   | ack (via : Via) (sticky notify persistent : Bool) (expiry now : Int)
   | remove (via : RVia) (now : Int)
   | advance (now : Int)
+  /-- `Timer::VerifFireDue(now)`; `fired` (did the comment-expiry timer run) is the implementation's own value -/
+  | pump (now : Int) (fired : Bool)
+  /-- a downtime in effect is added (`on`) or removed -/
+  | downtime (on : Bool) (now : Int)
   deriving Repr
 
 def Op.now : Op → Int
@@ -76,6 +85,8 @@ def Op.now : Op → Int
   | .ack _ _ _ _ _ n => n
   | .remove _ n => n
   | .advance n => n
+  | .pump n _ => n
+  | .downtime _ n => n
 
 structure MSt where
   base : St             -- C01: state_raw, state_type, check_attempt, last_hard_state_raw, last result's execution_start
@@ -83,10 +94,12 @@ structure MSt where
   expiry : Int          -- acknowledgement_expiry, 0 = none
   comments : List Cmt   -- existing comments of entry type acknowledgement
   suppPending : Bool    -- suppressed_notifications & (Problem|Recovery) ≠ 0
+  inDowntime : Bool     -- Checkable::IsInDowntime(): some registered downtime is in effect
   deriving Repr, DecidableEq
 
 /-- A never-checked, never-acknowledged checkable. -/
-def init : MSt := { base := pending, ack := .none, expiry := 0, comments := [], suppPending := false }
+def init : MSt :=
+  { base := pending, ack := .none, expiry := 0, comments := [], suppPending := false, inDowntime := false }
 
 /-- What one operation did besides changing the state (signals are ghost counters). -/
 structure Out where
@@ -141,6 +154,13 @@ def storedExpiry (via : Via) (expiry : Int) : Int :=
   | .extExpire => expiry
   | .cluster => expiry
 
+/-- The `expire_time` of the comment that goes with the acknowledgement: apiactions.cpp:265-266 and
+    externalcommandprocessor.cpp:649, 723 pass the expiry, :619, :693 pass 0. -/
+def commentExpire (via : Via) (expiry : Int) : Int :=
+  match via with
+  | .ext => 0
+  | _ => expiry
+
 /-- `Comment::AddComment(checkable, CommentAcknowledgement, …)` precedes `AcknowledgeProblem` in the API action and
     the external commands; the cluster handler creates none (comments are synchronised as objects of their own). -/
 def addsComment : Via → Bool
@@ -159,7 +179,8 @@ def ackStep (c : Cfg) (s : MSt) (via : Via) (sticky notify persistent : Bool) (e
       -- Comment::AddComment; Checkable::AcknowledgeProblem (checkable.cpp:160-174): one Acknowledgement
       -- notification request iff `notify` (the object is not paused), one OnAcknowledgementSet
       ({ g.1 with ack := ackTypeOf sticky, expiry := storedExpiry via expiry,
-                  comments := if addsComment via then insertCmt ⟨now, persistent⟩ g.1.comments else g.1.comments },
+                  comments := if addsComment via then insertCmt ⟨now, persistent, commentExpire via expiry⟩ g.1.comments
+                              else g.1.comments },
        { acc := true, nSet := 1, nClr := g.2, nAckN := if notify then 1 else 0 })
 
 /-- Remove-acknowledgement: `ClearAcknowledgement`, then — API action (apiactions.cpp:293-294) and external
@@ -205,8 +226,8 @@ def resultStep (c : Cfg) (s : MSt) (new : SState) (execStart execEnd now : Int) 
   let a := resultAck c s new now
   -- :278-281, :329-330 `remove_acknowledgement_comments`
   let comments := if a.1.ack == .none then a.1.comments.filter (keepsComment execEnd) else a.1.comments
-  -- :308 `suppress_notification` (reachable, no downtime): IsAcknowledged() after the clearing
-  let acked := a.1.ack != .none
+  -- :306-308 `suppress_notification` (reachable): in a downtime, or IsAcknowledged() after the clearing
+  let acked := a.1.ack != .none || s.inDowntime
   let send := sendNotification c s.base new
   -- :222-223
   let recovery := isOK c.kind new && !isOK c.kind s.base.state
@@ -214,6 +235,11 @@ def resultStep (c : Cfg) (s : MSt) (new : SState) (execStart execEnd now : Int) 
   let stash := send && (acked || s.suppPending)
   ({ a.1 with base := (stepCore c s.base r).1, comments := comments, suppPending := s.suppPending || stash },
    { acc := true, nClr := a.2, nProbN := if send && !stash && !recovery then 1 else 0 })
+
+/-- `Comment::CommentsExpireTimerHandler` (comment.cpp:240-259) with `Comment::IsExpired` (:119-124): an expired
+    comment is removed unless it is a persistent acknowledgement comment. -/
+def survivesExpiry (now : Int) (cm : Cmt) : Bool :=
+  !(cm.expire != 0 && decide (cm.expire < now)) || cm.persistent
 
 /-- One operation as the entry point performs it. -/
 def opStep (c : Cfg) (s : MSt) : Op → MSt × Out
@@ -224,6 +250,8 @@ def opStep (c : Cfg) (s : MSt) : Op → MSt × Out
   | .ack via sticky notify persistent expiry now => ackStep c s via sticky notify persistent expiry now
   | .remove via _ => removeStep s via
   | .advance _ => (s, {})
+  | .pump now fired => ({ s with comments := if fired then s.comments.filter (survivesExpiry now) else s.comments }, {})
+  | .downtime on _ => ({ s with inDowntime := on }, {})
 
 /-- One operation followed by a look at the object at the same virtual time: `GetAcknowledgement()`
     (what `IsAcknowledged`, `GetHandled` and every reader of the acknowledgement state go through). -/
@@ -253,9 +281,9 @@ structure Obs where
 def problemOf (c : Cfg) (s : MSt) : Bool :=
   s.base.lastExec.isSome && !isOK c.kind s.base.state
 
-/-- `Checkable::GetHandled` (checkable.cpp:212-215), no downtime. -/
+/-- `Checkable::GetHandled` (checkable.cpp:212-215). -/
 def handledOf (c : Cfg) (s : MSt) : Bool :=
-  problemOf c s && s.ack != .none
+  problemOf c s && (s.inDowntime || s.ack != .none)
 
 def obsOf (c : Cfg) (p : MSt × Out) : Obs :=
   { acc := p.2.acc, ack := p.1.ack, expiry := p.1.expiry, handled := handledOf c p.1, problem := problemOf c p.1,
